@@ -41,7 +41,7 @@ pub fn stub_decode_const(_cp: &CodePage, bytes: &[u8]) -> String {
 // ---------------------------------------------------------------------------
 // string references
 
-// @harness name=strref_codec kind=Pc tier=quick props=C01,C08 desc="StringRef::write/read for None and every reference 1..=0xffffff: long mode emits exactly the 3 little-endian bytes and reads back; short mode emits the 2 little-endian bytes when the number fits 16 bits and otherwise returns an error without writing"
+// @harness name=strref_codec kind=Pc tier=quick props=C01,C08,C20 desc="StringRef::write/read for None and every reference 1..=0xffffff: long mode emits exactly the 3 little-endian bytes and reads back; short mode emits the 2 little-endian bytes when the number fits 16 bits and otherwise returns an error without writing"
 #[kani::proof]
 #[kani::unwind(3)]
 #[kani::stub(alloc::fmt::format, stub_format)]
